@@ -123,17 +123,19 @@ def shards(events, size):
     return [events[i:i + size] for i in range(0, len(events), size)]
 
 
-def judge(c, spec, cfg, events, shard=400, jobs=3):
-    """c.validate over shards, with the rejections reported so that one representative of every distinct reason comes
-    first (vf prints the first 25 violations only).  TLC's verdicts are taken as they are; same bookkeeping as
-    vf.Check.validate (known findings through "kf:" verdicts, everything else a violation)."""
-    if not events:
+def judge(c, groups, jobs=3):
+    """groups: [(spec, cfg, events, shard size)].  c.validate over shards, with the rejections reported so that one
+    representative of every distinct (reason, kind of binary) comes first (vf prints the first 25 violations only).
+    TLC's verdicts are taken as they are; same bookkeeping as vf.Check.validate (known findings through "kf:"
+    verdicts, everything else a violation)."""
+    work = [(spec, cfg, sh) for (spec, cfg, events, size) in groups for sh in shards(events, size)]
+    if not work:
         return
-    res = vf.pmap(lambda sh: vf.tlc_validate(spec, cfg, sh, env=TLC_ENV), shards(events, shard), jobs=jobs)
-    c.cov["traces_validated_against_impl"] += len(events)
+    res = vf.pmap(lambda w: (w[0], vf.tlc_validate(w[0], w[1], w[2], env=TLC_ENV)), work, jobs=jobs)
+    c.cov["traces_validated_against_impl"] += sum(len(w[2]) for w in work)
     listed = {k["id"]: k for k in c.known if k.get("status") == "known"}
     rej = []
-    for r in res:
+    for spec, r in res:
         for (i, ev, kid) in r["kf"]:
             if kid in listed:
                 c.kf_seen[kid] = c.kf_seen.get(kid, 0) + 1
@@ -141,14 +143,12 @@ def judge(c, spec, cfg, events, shard=400, jobs=3):
                 rej.append(("matches finding %s which is not listed as known" % kid, "kf:" + kid, ev))
         for (i, ev, v) in r["bad"]:
             rej.append(("trace %s rejected (%s)" % (spec, v), ":".join(v.split(":")[:2]), ev))
-    first, rest, seen = [], [], set()
+    first, rest, seen, reasons = [], [], set(), {}
     for what, reason, ev in rej:
         key = (reason, ev.get("kind") if ev else None)
         (rest if key in seen else first).append((what, ev))
         seen.add(key)
-    reasons = {}
-    for what, reason, ev in rej:
         reasons[reason] = reasons.get(reason, 0) + 1
-    c.cov.setdefault("rejections_by_reason", {}).update({k: reasons[k] + c.cov.get("rejections_by_reason", {}).get(k, 0) for k in reasons})
+    c.cov["rejections_by_reason"] = reasons
     for what, ev in first + rest:
         c.violation(what, ev, payload_of)
